@@ -15,6 +15,7 @@ grouping indices); the contracts below are discharged on those sets completely (
   linear_index.from_X(to_X(i)) == i for every grouping type and every index; images pairwise different
 """
 from __future__ import annotations
+import itertools
 import time
 import numpy as np
 from .. import core
@@ -210,6 +211,35 @@ def run(ctx: core.Ctx):
             ctx.record(fam, PROVED if okd else REFUTED, None)
             if not okd:
                 ctx.violate(fam, f"linidx-distinct:{n}:{nm}", f"{nm}: two indices decode to the same grouping", {"n": n, "type": nm})
+    # a grouping is a set partition: however its groups are listed, encoding and decoding must give back the same partition
+    fam = ctx.family("C19.linear_index.presentation_independent", GROUND, "native",
+                     "for every index i and every listing order p of the groups of to_X(i): to_X(from_X(p)) is the same set partition as p, and from_X(to_X(from_X(p))) == from_X(p)")
+    fam.exhaustive = True
+    fam.domain = "every index of every grouping type used by LCClass2..6 x all reorderings of equal-size groups"
+
+    def _partition(r):
+        return sorted(tuple(sorted(t.data)) for grp in r.groups for t in grp)
+
+    for n, cls in LC.items():
+        for nm, com in cls.combinatorics.items():
+            for i in range(com["count"]):
+                r = com["from_lin_idx1"](i)
+                per_size = [list(itertools.permutations(g)) for g in r.groups]
+                for combo in itertools.product(*per_size):
+                    items = [li.NTuple(list(t.data)) for grp in combo for t in grp]
+                    pres = li.Repr(items) if items else li.Repr()
+                    try:
+                        j = com["to_lin_idx"](pres)
+                        back = com["from_lin_idx1"](j)
+                        ok = 0 <= j < com["count"] and _partition(back) == _partition(pres) and com["to_lin_idx"](back) == j
+                        got = f"index {j} which decodes to {back!r}"
+                    except Exception as e:
+                        ok, got = False, f"{type(e).__name__}: {e}"
+                    ctx.record(fam, PROVED if ok else REFUTED, {"n": n, "type": nm, "index": i} if fam.total < 2 else None)
+                    if not ok:
+                        ctx.violate(fam, f"linidx-pres:{n}:{nm}:{i}:{pres!r}", f"{nm}: the grouping {pres!r} (a listing of index {i}) encodes to {got}",
+                                    {"n": n, "type": nm, "index": i, "grouping": [list(t.data) for grp in pres.groups for t in grp],
+                                     "python": f"from htstabilizer import linear_index as li; print(li.{com['to_lin_idx'].__name__}(li.Repr({[list(t.data) for grp in pres.groups for t in grp]})))"})
     fam = ctx.family("C19.linear_index.n_choose_2", GROUND, "native", "linear_index_to_n_choose2_to / from_n_choose_2 are mutually inverse (float sqrt not modelled: whole finite domain enumerated)")
     fam.exhaustive = True
     ctx.under_contract(li.linear_index_from_n_choose_2)
